@@ -114,7 +114,7 @@ def run(ctx, chk):
     else:
         chk.fail('C16.2', 'offset-invariant', 'a saved DMA offset can exceed 0x9f (%s)' % offinv, file, None)
     iph = absint.Interp(facts, loop_mode='havoc', opaque=[RB, WB, IRC], opaque_havoc={WB: [0]}, sym_facts=inv.sym_facts,
-                        trust_asserts=('overflow',))
+                        trust_asserts=('overflow',), always_summarise=True)
     st = iph.new_state()
     mem = iph.arg_object(st, 'mem')
     rs = iph.run(MRC, [mem, cyc], st)
@@ -351,23 +351,32 @@ def run(ctx, chk):
         else:
             chk.fail('C16.4', 'step', 'copy loop: %s' % why, file, None)
         # ---- batch size: number of iterations N0 = min(0xa0 - offset0, clocks / 4), offset0 = the saved offset
-        lemma_pre = False
+        # (decided per iteration path: the initial values may be chosen by a branch, e.g. `if n < r { n } else { r }`)
+        lemma_pre = Xs is not None
         N0 = X0 = None
-        env0 = body[0].state.env
-        if Xs is not None and Xs in inits:
-            X0 = inits[Xs][0]
-            if form == 'down' and Bs in inits:
-                N0 = inits[Bs][0]
-            elif form == 'up':
-                N0 = O(64, 'sub', Es, X0) if Es is not None else None
-        off0 = None
-        if X0 is not None:
-            ss = [s_ for s_ in syms_of(X0) if s_[3] and s_[3][0] == 'field' and s_[3][2] == 'current_offset']
-            if len(ss) == 1 and (X0 == O(X0[1], 'zext', ss[0]) or bvproof.equal_under(X0, O(X0[1], 'zext', ss[0]), env0, X0[1])):
-                off0 = ss[0]
-        if off0 is not None and N0 is not None:
+        for r in body:
+            ini = {e[1]: (e[2], e[3]) for e in r.state.events if e[0] == 'loopinit'}
+            envp = r.state.env
+            n0 = x0 = None
+            if Xs in ini:
+                x0 = ini[Xs][0]
+                if form == 'down' and Bs in ini:
+                    n0 = ini[Bs][0]
+                elif form == 'up':
+                    n0 = O(64, 'sub', Es, x0) if Es is not None else None
+            N0, X0 = n0, x0
+            off0 = None
+            if x0 is not None:
+                ss = [s_ for s_ in syms_of(x0) if s_[3] and s_[3][0] == 'field' and s_[3][2] == 'current_offset']
+                if len(ss) == 1 and (x0 == O(x0[1], 'zext', ss[0]) or bvproof.equal_under(x0, O(x0[1], 'zext', ss[0]), envp, x0[1])):
+                    off0 = ss[0]
+            if off0 is None or n0 is None:
+                lemma_pre = False
+                break
             want = O(64, 'umin', O(64, 'sub', C(64, 0xa0), O(64, 'zext', off0)), O(64, 'udiv', clocks, C(64, 4)))
-            lemma_pre = (N0 == want) or bool(bvproof.equal_under(N0, want, env0, 64))
+            if not ((n0 == want) or bool(bvproof.equal_under(n0, want, envp, 64))):
+                lemma_pre = False
+                break
         if lemma_pre:
             chk.ok('C16.5', 'batch-size', sample={'bytes_this_batch': fmt(N0), 'first offset': fmt(X0)})
         else:
